@@ -60,7 +60,8 @@ impl CMP {
 
         cursor.seek(SeekFrom::Start(0x2a800)).ok()?;
 
-        let rem = buffer.len() - cursor.position() as usize;
+        // a file shorter than the fixed table offset has no parameters
+        let rem = buffer.len().checked_sub(cursor.position() as usize)?;
         let entries = rem / std::mem::size_of::<RacialScalingParameters>();
 
         let mut parameters = vec![];
